@@ -60,18 +60,26 @@ type LintConfig struct {
 // Lint lints file
 func Lint(stream io.Reader, lc LintConfig) error {
 	errorsFound := 0
+	var writeErr error
 	err := parser.ParseStreamCallback(stream, lc.ParserConfig, func(node *shared.ParserNode, err error) (stop bool, cbError error) {
 		if err != nil {
 			errorsFound++
-			fmt.Fprintln(lc.ReporterConfig.Output, err)
+			if _, werr := fmt.Fprintln(lc.ReporterConfig.Output, err); werr != nil && writeErr == nil {
+				writeErr = werr
+			}
 		}
 		return false, nil
 	})
 	if err != nil {
 		return err
 	}
+	if writeErr != nil {
+		return writeErr
+	}
 	if !lc.Silent && errorsFound == 0 {
-		fmt.Fprintln(lc.ReporterConfig.Output, "No errors found")
+		if _, werr := fmt.Fprintln(lc.ReporterConfig.Output, "No errors found"); werr != nil {
+			return werr
+		}
 	}
 	return nil
 }
